@@ -11,7 +11,7 @@ IdT = Tup(Nat, Nat)
 NodeT = Tup(IdT, Nat)
 LabT = Tup(Nat, List(Nat), Bool)
 EdgeT = Tup(IdT, LabT, List(NodeT))
-GraphT = Tup(List(NodeT), List(EdgeT), List(NodeT), List(LabT))
+GraphT = Tup(List(NodeT), List(EdgeT), List(NodeT), List(LabT), List(Nat))
 NameT = Tup(Nat, List(IdT), IdT)
 WTREE = Sum("wtree", "ReplaceCheck",
             {"WT": Tup(Tup(LabT, GraphT), List(Tup(NodeT, Nat)),
@@ -29,12 +29,15 @@ DER = CheckFn("c15-derive", "Model.ReplaceCheck", "derive_check",
                   List(Tup(Nat, List(Nat), NN)), NN),
               imports=["Model.Replace"])
 START = CheckFn("c15-start", "Model.ReplaceCheck", "start_check", Tup(LabT, Nat, GraphT), imports=["Model.Replace"])
-CHECKFNS = [REPL, LIN, DER, START]
+ALIAS = CheckFn("c15-alias", "Model.ReplaceCheck", "alias_check", Tup(GraphT, Nat, EdgeT, OutT), imports=["Model.Replace"])
+CHECKFNS = [REPL, LIN, DER, START, ALIAS]
+
+ALIAS_KEY = "c15_replacement_is_host"
 
 ASSUMPTIONS = [
-    "implicit Node/Edge ids (object addresses) are modelled by a fresh-id counter: a newly created object's id differs from the id of every object still referenced (the harness keeps every graph alive while it is compared)",
-    "the node-label table of Graph is not modelled (C16); the edge-label table is (name clash -> ValueError)",
-    "replace_edge(g, e, g) with the replacement aliasing the host (RuntimeError: dict changed size) is outside the functional model",
+    "implicit Node/Edge ids (object addresses) are modelled by a fresh-id counter: a newly created object's id differs from the id of every object still referenced (the harness keeps every graph alive while it is compared; a separate derive() run without any keep-alive is compared by position)",
+    "both label tables of Graph are modelled: the edge-label table (name clash -> ValueError) and the node-label table (a NodeLabel is its name; the table is the list of names in insertion order)",
+    "replace_edge(g, e, g) with the replacement aliasing the host is modelled separately (replace_edge_alias_model: live dict views, RuntimeError after the first insertion); the dict-iterator protocol of CPython (size test on every next()) is taken from the interpreter, not proved",
     "weights: the product theorem is proved for every commutative semiring; the run-time comparison uses non-negative integer weights (exact in float)",
 ]
 
@@ -57,23 +60,28 @@ class Ctx:
         self.keep.append(e); return (self.id(e.id), self.lab(e.label), [self.node(n) for n in e.nodes])
     def graph(self, g):
         return ([self.node(n) for n in g.nodes()], [self.edge(e) for e in g.edges()],
-                [self.node(n) for n in g.ext], [self.lab(l) for l in g.edge_labels()])
+                [self.node(n) for n in g.ext], [self.lab(l) for l in g.edge_labels()],
+                [self.nlab(l) for l in g.node_labels()])
     @property
     def nx(self): return len(self.impl)
 
 def nstart(j): return (0, [], (0, j))
 def ninst(ctx, p, i): return (1, [ctx.id(x) for x in p], ctx.id(i))
 
+STATUS_NAME = {0: "returned", 1: "ValueError", 2: "KeyError", 3: "other", 4: "RuntimeError"}
+
 def exc_status(e):
     if isinstance(e, ValueError): return 1
     if isinstance(e, KeyError): return 2
+    if isinstance(e, RuntimeError): return 4
     return 3
 
-def judged_replace(ctx, g, e, repl):
+def judged_replace(ctx, g, e, repl, pre=None):
     """call fggs.replace_edge and return (outcome, wire case for replace_check)"""
     import fggs
     whost, we, wrepl = ctx.graph(g), ctx.edge(e), ctx.graph(repl)
     nx = ctx.nx
+    if pre is not None: pre()
     try:
         nm, em = fggs.replace_edge(g, e, repl)
         status = 0
@@ -93,6 +101,80 @@ def judged_replace(ctx, g, e, repl):
     case = (whost, nx, we, wrepl, (status, wres, wnm, wem))
     return (nm, em, status), case
 
+def judged_alias(ctx, g, e):
+    """fggs.replace_edge(g, e, g): the host is its own replacement.  The wire holds the graph as the
+    caller passed it (before the call); new objects are numbered in the order of the result's dicts"""
+    import fggs
+    whost, we = ctx.graph(g), ctx.edge(e)
+    nx = ctx.nx
+    try:
+        nm, em = fggs.replace_edge(g, e, g)
+        status = 0
+    except Exception as ex:
+        nm, em, status = {}, {}, exc_status(ex)
+    wres = ctx.graph(g)
+    wnm = [(ctx.node(a), ctx.node(b)) for a, b in nm.items()]
+    wem = [(ctx.edge(a), ctx.edge(b)) for a, b in em.items()]
+    return status, (whost, nx, we, (status, wres, wnm, wem))
+
+# ----------------------------------------------------------------------------
+# grammar specs: forced shapes (pure transformations of a gen.random_spec spec)
+
+def permute_nodes(rng, spec):
+    """same grammar, the nodes of every rule inserted in a random order: the order of .ext then
+    differs from the insertion order of the external nodes"""
+    rules = []
+    for r in spec["rules"]:
+        n = len(r["nodes"]); perm = list(range(n)); rng.shuffle(perm)       # old index i -> perm[i]
+        nodes = [None] * n
+        for i, nl in enumerate(r["nodes"]): nodes[perm[i]] = nl
+        rules.append(dict(lhs=r["lhs"], nodes=nodes, edges=[(el, [perm[i] for i in att]) for el, att in r["edges"]],
+                          ext=[perm[i] for i in r["ext"]]))
+    return dict(spec, rules=rules)
+
+def add_isolated(rng, spec):
+    """an extra internal node attached to nothing in one or two rules"""
+    rules = [dict(r, nodes=list(r["nodes"])) for r in spec["rules"]]
+    for r in rng.sample(rules, min(len(rules), rng.choice([1, 1, 2]))):
+        r["nodes"].append(rng.randrange(len(spec["nlabels"])))
+    return dict(spec, rules=rules)
+
+def repeat_attachments(rng, spec):
+    """edges (nonterminal ones first of all) attached twice to the same node where the type allows it"""
+    rules = []
+    for r in spec["rules"]:
+        edges = []
+        for el, att in r["edges"]:
+            att = list(att)
+            ty = spec["elabels"][el]["type"]
+            if len(att) >= 2 and rng.random() < (0.7 if not spec["elabels"][el]["term"] else 0.2):
+                pairs = [(i, j) for i in range(len(att)) for j in range(i + 1, len(att)) if ty[i] == ty[j]]
+                if pairs:
+                    i, j = rng.choice(pairs); att[j] = att[i]
+            edges.append((el, att))
+        rules.append(dict(r, edges=edges))
+    return dict(spec, rules=rules)
+
+def forced_spec(rng):
+    """a fixed grammar that has every shape the property text and the seeded regressions need:
+    start symbol of arity 2, ext listed in another order than inserted (equal labels), isolated internal
+    node, a nonterminal edge attached twice to one node, several rules per nonterminal, internal nodes in
+    the rules used as shared sub-derivations, recursion"""
+    el = [dict(term=False, type=[0, 0]), dict(term=False, type=[0, 0]), dict(term=False, type=[0]),
+          dict(term=True, type=[0, 0]), dict(term=True, type=[0])]
+    S, X, Y, f, g = 0, 1, 2, 3, 4
+    rules = [
+        dict(lhs=S, nodes=[0, 0, 0, 0], edges=[(X, [0, 0]), (X, [1, 2]), (Y, [2]), (Y, [0]), (g, [0])], ext=[1, 0]),
+        dict(lhs=X, nodes=[0, 0, 0], edges=[(f, [2, 1]), (f, [1, 0]), (Y, [1]), (Y, [0])], ext=[2, 0]),
+        dict(lhs=X, nodes=[0, 0], edges=[(f, [0, 1])], ext=[1, 0]),
+        dict(lhs=X, nodes=[0, 0, 0], edges=[(X, [2, 1]), (g, [0])], ext=[1, 2]),
+        dict(lhs=Y, nodes=[0, 0], edges=[(f, [0, 1])], ext=[0]),
+        dict(lhs=Y, nodes=[0, 0, 0], edges=[(f, [1, 0]), (Y, [0])], ext=[1]),
+        dict(lhs=Y, nodes=[0], edges=[(g, [0])], ext=[0]),
+    ]
+    return dict(nlabels=[rng.choice([2, 3])], elabels=el, start=0, rules=rules, weights={},
+                features=["forced"], recursive=True)
+
 # ----------------------------------------------------------------------------
 # derivation trees
 
@@ -109,14 +191,52 @@ class Inst:
 
 class Overflow(Exception): pass
 
-def gen_tree(rng, spec, b, max_inst):
+def assign_values(rng, spec, t):
+    """consistent random values: one value per class of nodes identified by the gluing (union-find over
+    (instance object, node index)); a shared instance object gets ONE assignment that fits all its uses"""
+    parent = {}
+    def find(x):
+        parent.setdefault(x, x)
+        while parent[x] != x:
+            parent[x] = parent[parent[x]]; x = parent[x]
+        return x
+    def union(a, b):
+        ra, rb = find(a), find(b)
+        if ra != rb: parent[ra] = rb
+    seen = {}
+    def walk(s):
+        if id(s) in seen: return
+        seen[id(s)] = s
+        r = spec["rules"][s.ri]
+        for ni in range(len(r["nodes"])): find((id(s), ni))
+        for k, c in s.children.items():
+            ki = s.edges.index(k)
+            for a_, x_ in zip(r["edges"][ki][1], spec["rules"][c.ri]["ext"]): union((id(s), a_), (id(c), x_))
+            walk(c)
+    walk(t)
+    val = {}
+    for s in seen.values():
+        r = spec["rules"][s.ri]
+        s.asst = {}
+        for ni, nl in enumerate(r["nodes"]):
+            root = find((id(s), ni))
+            if root not in val: val[root] = rng.randrange(spec["nlabels"][nl])
+            s.asst[s.nodes[ni]] = val[root]
+
+def gen_tree(rng, spec, b, max_inst, p_share=0.0):
     by_lhs = {}
     for ri, r in enumerate(spec["rules"]): by_lhs.setdefault(r["lhs"], []).append(ri)
     count = [0]
+    done = {}
     def nts(ri): return [k for k, (el, _) in enumerate(spec["rules"][ri]["edges"]) if not spec["elabels"][el]["term"]]
     def build(lhs):
         cands = by_lhs.get(lhs)
         if not cands: return None
+        if done.get(lhs) and rng.random() < p_share:
+            # the SAME sub-derivation object under another nonterminal edge (shared sub-tree)
+            fit = [s for s in done[lhs] if count[0] + s.size() <= max_inst]
+            if fit:
+                s = rng.choice(fit); count[0] += s.size(); return s
         if count[0] >= max_inst - 2:
             m = min(len(nts(ri)) for ri in cands)
             cands = [ri for ri in cands if len(nts(ri)) == m]
@@ -135,29 +255,53 @@ def gen_tree(rng, spec, b, max_inst):
             if rng.random() < 0.05: continue            # leave a nonterminal edge unexpanded
             sub = build(spec["rules"][ri]["edges"][k][0])
             if sub is not None: t.children[edges[k]] = sub
+        done.setdefault(lhs, []).append(t)
         return t
     for _ in range(30):
-        count[0] = 0
+        count[0] = 0; done.clear()
         try:
             t = build(spec["start"])
         except Overflow:
             continue
         if t is None: return None
-        # assignments, top-down, consistent on glued nodes
-        def assign(t, ext_vals):
-            r = spec["rules"][t.ri]
-            vals = {}
-            for j, ni in enumerate(r["ext"]):
-                if ext_vals is not None: vals[ni] = ext_vals[j]
-            for ni, nl in enumerate(r["nodes"]):
-                if ni not in vals: vals[ni] = rng.randrange(spec["nlabels"][nl])
-            t.asst = {t.nodes[ni]: v for ni, v in vals.items()}
-            for k, c in t.children.items():
-                ki = t.edges.index(k)
-                assign(c, [vals[a] for a in r["edges"][ki][1]])
-        assign(t, None)
+        assign_values(rng, spec, t)
         return t
     return None
+
+def tree_features(spec, t):
+    """which of the shapes named by the property text this derivation tree exercises"""
+    f = set()
+    byobj = {}
+    for p, s in t.paths(): byobj.setdefault(id(s), []).append(s)
+    el = spec["elabels"]
+    if el[spec["start"]]["type"]:
+        f.add("start_arity>0")
+        if any(n in t.asst for n in t.rule.rhs.ext): f.add("start_arity>0_with_start_assignment")
+    used = [s.ri for _, s in t.paths()]
+    if len(set(used)) < len(used): f.add("rule_used_at_several_places")
+    for p, s in t.paths():
+        r = spec["rules"][s.ri]
+        att_all = {i for _, att in r["edges"] for i in att}
+        internal = [i for i in range(len(r["nodes"])) if i not in r["ext"]]
+        if any(i not in att_all for i in internal): f.add("isolated_internal_node")
+        if any(i not in att_all for i in r["ext"]): f.add("isolated_external_node")
+        ext = r["ext"]
+        if ext != sorted(ext):
+            f.add("ext_order_differs_from_insertion_order")
+            if any(ext[i] > ext[j] and r["nodes"][ext[i]] == r["nodes"][ext[j]] for i in range(len(ext)) for j in range(i + 1, len(ext))):
+                f.add("ext_transposed_with_equal_labels")
+        for k, c in s.children.items():
+            att = r["edges"][s.edges.index(k)][1]
+            if len(set(att)) < len(att): f.add("expanded_nonterminal_edge_attached_twice_to_a_node")
+        if len(s.children) < sum(1 for e_, _ in r["edges"] if not el[e_]["term"]): f.add("nonterminal_edge_left_unexpanded")
+        if not internal and not r["edges"]: f.add("rule_copies_nothing")
+    for lst in byobj.values():
+        if len(lst) > 1:
+            f.add("shared_subderivation_object")
+            r = spec["rules"][lst[0].ri]
+            if len(r["nodes"]) > len(set(r["ext"])): f.add("shared_subderivation_object_with_internal_node")
+            if lst[0].children: f.add("shared_subderivation_object_with_children")
+    return f
 
 def n_linearisations(t):
     n = t.size()
@@ -193,11 +337,6 @@ def wire_tree(ctx, t):
                    [(ctx.node(n), v) for n, v in t.asst.items()],
                    [(ctx.edge(k), wire_tree(ctx, c)) for k, c in t.children.items()]))
 
-def subtree(t, p):
-    for q, s in t.paths():
-        if q == p: return s
-    raise KeyError(p)
-
 def run_linearisation(ctx, hrg, t, order, repl_cases):
     """carry out the replacement steps in the given order with fggs.replace_edge, naming the
     nodes/edges through the maps it returns.  Returns (graph, node names, edge names)."""
@@ -229,11 +368,25 @@ def wire_named(ctx, g, nn, en):
     return (ctx.graph(g), [(ctx.node(n), nn.get(n, UNNAMED)) for n in g.nodes()],
             [(ctx.edge(e), en.get(e, UNNAMED)) for e in g.edges()])
 
-def to_fgg_deriv(fgg, spec, t):
+def to_fgg_deriv(fgg, spec, t, memo=None):
+    """FGGDerivation objects; an Inst object occurring at several places of the tree becomes ONE
+    FGGDerivation object used as the child of several edges"""
     import fggs
+    memo = {} if memo is None else memo
+    if id(t) in memo: return memo[id(t)]
     r = spec["rules"][t.ri]
     asst = {n: "v%d_%d" % (r["nodes"][t.nodes.index(n)], v) for n, v in t.asst.items()}
-    return fggs.FGGDerivation(fgg, t.rule, asst, {k: to_fgg_deriv(fgg, spec, c) for k, c in t.children.items()})
+    d = fggs.FGGDerivation(fgg, t.rule, asst, {k: to_fgg_deriv(fgg, spec, c, memo) for k, c in t.children.items()})
+    memo[id(t)] = d
+    return d
+
+def weight_product(g, asst):
+    prod = 1
+    for e in g.edges():
+        if e.label.is_terminal:
+            w = g.factors[e.label.name].apply([asst[n] for n in e.nodes])
+            prod *= int(round(float(w)))
+    return prod
 
 def run_derive(ctx, b, spec, t):
     """derive() with fggs.derivations.replace_edge wrapped to record the maps (names only)."""
@@ -262,16 +415,34 @@ def run_derive(ctx, b, spec, t):
             if rn not in ext: nn[gn] = ninst(ctx, p, rn.id)
         for re_, ge in em.items(): en[ge] = ninst(ctx, p, re_.id)
         for k, c in s.children.items(): epath[em[k]] = p + (k.id,)
-    # weight product through the implementation's factors
-    prod = 1
-    for e in g.edges():
-        if e.label.is_terminal:
-            w = g.factors[e.label.name].apply([asst[n] for n in e.nodes])
-            prod *= int(round(float(w)))
+    # weight product through the implementation's factors (a missing value is judged by the model side)
+    try:
+        prod = weight_product(g, asst)
+    except KeyError:
+        prod = 0
     wasst = []
     for n, v in asst.items():
         wasst.append((ctx.node(n), int(str(v).split("_")[1])))
-    return g, wasst, nn, en, prod
+    return g, asst, wasst, nn, en, prod
+
+def run_derive_plain(b, spec, t):
+    """derive() once more with NOTHING kept alive by the harness (only the integer ids of the replaced
+    edges are recorded): objects dropped by an earlier replacement may give their address, i.e. their
+    id, to a node/edge created by a later one"""
+    import fggs.derivations as D
+    dead = set()
+    orig = D.replace_edge
+    def spy(graph, edge, replacement):
+        if not isinstance(edge.id, str): dead.add(edge.id)
+        return orig(graph, edge, replacement)
+    d = to_fgg_deriv(b.fgg, spec, t)
+    D.replace_edge = spy
+    try:
+        g, asst = d.derive()
+    finally:
+        D.replace_edge = orig
+    reused = sum(1 for n in g.nodes() if n.id in dead) + sum(1 for e in g.edges() if e.id in dead)
+    return g, asst, reused
 
 # ----------------------------------------------------------------------------
 
@@ -304,16 +475,37 @@ def tree_shape(t):
 # ----------------------------------------------------------------------------
 # malformed / single-call stream
 
+def build_graph(nls, els, r, idf):
+    """a Graph from a spec rule; idf(kind, k) -> explicit id string or None"""
+    import fggs
+    g = fggs.Graph()
+    nodes = [fggs.Node(nls[nl], id=idf("n", k)) for k, nl in enumerate(r["nodes"])]
+    for n in nodes: g.add_node(n)
+    edges = []
+    for k, (el, att) in enumerate(r["edges"]):
+        e = fggs.Edge(els[el], [nodes[i] for i in att], id=idf("e", k))
+        g.add_edge(e); edges.append(e)
+    g.ext = [nodes[i] for i in r["ext"]]
+    return g, nodes, edges
+
+def random_single_spec(rng, kind):
+    spec = gen.random_spec(rng, recursive=True, start_arity0=False, dup_ext=(kind == "dup_ext"), p_feature=0.4 if kind == "dup_ext" else 0.15)
+    if rng.random() < 0.6: spec = permute_nodes(rng, spec)
+    if rng.random() < 0.2: spec = add_isolated(rng, spec)
+    if rng.random() < 0.3: spec = repeat_attachments(rng, spec)
+    return spec
+
 def malformed_cases(rng, n):
-    """yields (kind, ctx, host, edge, repl) for single replace_edge calls outside the guard"""
+    """yields (kind, ctx, host, edge, repl, spec, pre) for single replace_edge calls, most outside the guard"""
     import fggs
     out = []
-    kinds = ["wrong_type", "absent_edge", "wrong_type_absent", "dup_ext", "label_clash", "foreign_node", "alias_id", "valid_rhs_host"]
+    kinds = ["wrong_type", "absent_edge", "wrong_type_absent", "dup_ext", "label_clash", "foreign_node", "alias_id", "valid_rhs_host",
+             "lookalike_ids", "valid_rhs_host"]
     tries = 0
     while len(out) < n and tries < 40 * n:
         tries += 1
         kind = kinds[len(out) % len(kinds)]
-        spec = gen.random_spec(rng, recursive=True, start_arity0=False, dup_ext=(kind == "dup_ext"), p_feature=0.4 if kind == "dup_ext" else 0.15)
+        spec = random_single_spec(rng, kind)
         ids = rng.choice(["explicit", "implicit", "mixed"])
         bh = gen.build_hrg(spec, ids=ids, rng=rng)       # hosts (mutated)
         br = gen.build_hrg(spec, ids=rng.choice(["explicit", "implicit", "mixed"]), rng=rng)   # replacements
@@ -325,9 +517,10 @@ def malformed_cases(rng, n):
         ri, k, el = rng.choice(cands)
         host = bh.rules[ri][0].rhs
         edge = bh.rules[ri][2][k]
+        pre = None
         same = [rj for rj, r in enumerate(spec["rules"]) if r["lhs"] == el]
         typ = lambda x: spec["elabels"][x]["type"]
-        if kind in ("valid_rhs_host", "dup_ext", "label_clash", "foreign_node", "alias_id", "absent_edge"):
+        if kind in ("valid_rhs_host", "dup_ext", "label_clash", "foreign_node", "alias_id", "absent_edge", "lookalike_ids"):
             if not same: continue
             rj = rng.choice(same)
             if kind == "dup_ext" and len(set(spec["rules"][rj]["ext"])) == len(spec["rules"][rj]["ext"]): continue
@@ -336,6 +529,19 @@ def malformed_cases(rng, n):
             other = [rj for rj, r in enumerate(spec["rules"]) if typ(r["lhs"]) != typ(el)]
             if not other: continue
             repl = br.rules[rng.choice(other)][0].rhs
+        if kind == "lookalike_ids":
+            # explicit ids of the host = decimal strings of addresses that the allocator is about to hand
+            # out again: dummy objects of the classes replace_edge instantiates, freed just before the call
+            r = spec["rules"][ri]
+            n_new = len(list(repl.nodes())) + len(list(repl.edges())) + 2
+            dummies = [fggs.Node(bh.nls[0]) for _ in range(n_new)] + [fggs.Edge(edge.label, edge.nodes) for _ in range(n_new)]
+            pool = [str(id(d)) for d in dummies]
+            rng.shuffle(pool)
+            def idf(kind_, k_, pool=pool):
+                return pool.pop() if pool and rng.random() < 0.8 else "%s%d" % (kind_, k_)
+            host, hn, he = build_graph(bh.nls, bh.els, r, idf)
+            edge = he[k]
+            def pre(dummies=dummies): dummies.clear()
         if kind in ("absent_edge", "wrong_type_absent"):
             edge = fggs.Edge(edge.label, edge.nodes, id=rng.choice([None, "zz"]))
         if kind == "alias_id":
@@ -373,44 +579,138 @@ def malformed_cases(rng, n):
             g2._edge_labels[lab.name] = lab
             g2.ext = repl.ext
             repl = g2
-        out.append((kind, Ctx(), host, edge, repl, gen.spec_jsonable(spec)))
+        out.append((kind, Ctx(), host, edge, repl, gen.spec_jsonable(spec), pre))
+    return out
+
+def lookalike_hit(g):
+    """an explicit id (a string) of the graph spells the implicit id (an int) of another node/edge of it"""
+    ints = {n.id for n in g.nodes() if not isinstance(n.id, str)} | {e.id for e in g.edges() if not isinstance(e.id, str)}
+    strs = [x.id for x in list(g.nodes()) + list(g.edges()) if isinstance(x.id, str)]
+    return sum(1 for s in strs if s.isdigit() and int(s) in ints)
+
+# ----------------------------------------------------------------------------
+# replace_edge(g, e, g)
+
+def alias_cases(rng, n):
+    """(shape, ctx, host, edge, jsonable description): calls replace_edge(host, edge, host)"""
+    import fggs
+    out = []
+    N = fggs.NodeLabel("N0")
+    X = fggs.EdgeLabel("X0", (N,), is_nonterminal=True)
+    t2 = fggs.EdgeLabel("t1", (N, N), is_terminal=True)
+    t1 = fggs.EdgeLabel("t2", (N,), is_terminal=True)
+    def small(shape, ids):
+        mk = (lambda s: s) if ids == "explicit" else (lambda s: None)
+        g = fggs.Graph(); a = fggs.Node(N, id=mk("a")); b = fggs.Node(N, id=mk("b"))
+        if shape == "internal_node":           # a(ext) -t- b, X(b): RuntimeError in the node loop
+            g.add_node(a); g.add_node(b); g.add_edge(fggs.Edge(t2, (a, b), id=mk("f"))); e = fggs.Edge(X, (b,), id=mk("e")); g.add_edge(e); g.ext = [a]
+        elif shape == "only_edge":             # a(ext), X(a): returns, the copy of X(a) is missing
+            g.add_node(a); e = fggs.Edge(X, (a,), id=mk("e")); g.add_edge(e); g.ext = [a]
+        elif shape == "all_ext_other_edge":    # a(ext), t(a), X(a): RuntimeError in the edge loop
+            g.add_node(a); g.add_edge(fggs.Edge(t1, (a,), id=mk("f"))); e = fggs.Edge(X, (a,), id=mk("e")); g.add_edge(e); g.ext = [a]
+        elif shape == "wrong_type":            # X(a) but no external node: ValueError, unchanged
+            g.add_node(a); e = fggs.Edge(X, (a,), id=mk("e")); g.add_edge(e)
+        else:                                  # absent edge
+            g.add_node(a); g.add_edge(fggs.Edge(X, (a,), id=mk("e"))); g.ext = [a]; e = fggs.Edge(X, (a,), id=mk("zz"))
+        return g, e
+    for shape in ["internal_node", "only_edge", "all_ext_other_edge", "wrong_type", "absent_edge"]:
+        for ids in ["explicit", "implicit"]:
+            g, e = small(shape, ids)
+            out.append((shape, Ctx(), g, e, dict(shape=shape, ids=ids, hand_made=True)))
+    tries = 0
+    while len(out) < n and tries < 60 * n:
+        tries += 1
+        spec = random_single_spec(rng, "alias")
+        ids = rng.choice(["explicit", "implicit", "mixed"])
+        b = gen.build_hrg(spec, ids=ids, rng=rng)
+        cands = []
+        for ri, r in enumerate(spec["rules"]):
+            if len(set(r["ext"])) < len(r["ext"]): continue
+            for k, (el, att) in enumerate(r["edges"]):
+                if not spec["elabels"][el]["term"] and spec["elabels"][el]["type"] == [r["nodes"][i] for i in r["ext"]]:
+                    cands.append((ri, k))
+        if not cands: continue
+        ri, k = rng.choice(cands)
+        r = spec["rules"][ri]
+        variant = rng.choice(["as_is", "as_is", "all_ext", "only_edge"])
+        if variant != "as_is":
+            keep = sorted(set(r["ext"]))
+            if any(i not in keep for i in r["edges"][k][1]): variant = "as_is"
+            else:
+                ren = {i: j for j, i in enumerate(keep)}
+                kept = [kk for kk, (el, att) in enumerate(r["edges"]) if all(i in ren for i in att) and (variant == "all_ext" or kk == k)]
+                edges = [(r["edges"][kk][0], [ren[i] for i in r["edges"][kk][1]]) for kk in kept]
+                r = dict(lhs=r["lhs"], nodes=[r["nodes"][i] for i in keep], edges=edges, ext=[ren[i] for i in r["ext"]])
+                k = kept.index(k)
+        def idf(kind_, k_): return ("%s%d" % (kind_, k_)) if (ids == "explicit" or (ids == "mixed" and rng.random() < 0.5)) else None
+        g, ns, es = build_graph(b.nls, b.els, r, idf)
+        out.append((variant, Ctx(), g, es[k], dict(shape=variant, ids=ids, rule=dict(r, edges=[list(x) for x in r["edges"]]), edge=k)))
     return out
 
 # ----------------------------------------------------------------------------
 
-REPL_MSG = {1: "replace_edge result violates the replacement specification (verified oracle replace_ok rejects it)",
+REPL_MSG = {1: "replace_edge result violates the replacement specification (verified oracle replace_ok rejects it; C15_replace_ok_exact)",
             2: "a wrong-type replacement / an edge not in the graph was not rejected with ValueError leaving the graph unchanged",
+            3: "replace_edge raised on a well-formed host, edge and replacement of the right type (C15_replace_spec: it must return a replacement)",
             10: "replace_edge result differs from the Gallina model", 11: "graph left behind by a raising replace_edge differs from the model's",
             12: "replace_edge raised where the model returns", 13: "replace_edge returned / raised another error where the model raises"}
-LIN_MSG = {1: "graph obtained by this order of replacements is not isomorphic (through the returned maps) to the derived graph (verified oracle same_upto_naming rejects)",
+LIN_MSG = {1: "graph obtained by this order of replacements is not isomorphic (through the returned maps) to the derived graph (verified oracle same_upto_naming rejects; C15_same_upto_naming_exact)",
            3: "generated derivation tree is not well-formed (harness bug)", 10: "final graph differs from the model's run of the same linearisation",
            11: "the model's run of this linearisation fails", 12: "model's own run is not the derived graph (contradicts C15_confluence)"}
 DER_MSG = {1: "derive(): graph is not isomorphic to the derived graph (oracle same_upto_naming rejects)",
            2: "derive(): assignment is not total on the nodes of the derived graph",
+           5: "derive(): assignment has a key that is not a node of the derived graph",
            12: "derive(): a value of the assignment is not the value of the denotational derived assignment at that node's name (C15_derive_assignment)",
            3: "derive(): product of factor weights differs from the product of the rule-instance weights",
            4: "generated derivation tree is not well-formed (harness bug)", 10: "derive() differs from derive_model",
            11: "derive_model raises on a well-formed derivation"}
+ALIAS_MSG = {1: "replace_edge(g, e, g) -- the host graph passed as its own replacement -- does not replace e by (a copy of) g: it raises RuntimeError half-way or returns a graph without the copy of e (oracle replace_ok rejects; outcome equals replace_edge_alias_model)",
+             2: "replace_edge(g, e, g): wrong type / absent edge not rejected with ValueError leaving the graph unchanged",
+             4: "replace_edge(g, e, g) violates the replacement specification AND differs from the aliasing model",
+             10: "replace_edge(g, e, g) differs from replace_edge_alias_model (if /repo was repaired: update the model and mark the finding fixed)"}
 
 def run(tier, seed):
+    # the harness keeps every wire value and every fggs object alive until the verdicts are in (a few
+    # million acyclic tuples): generational collections of that heap cost more than everything else, and
+    # there is nothing cyclic to reclaim but derive()'s own closure frames
+    import gc
+    was = gc.isenabled()
+    gc.disable()
+    try:
+        return _run(tier, seed)
+    finally:
+        if was: gc.enable()
+
+def _run(tier, seed):
     rng = random.Random(seed)
+    import time as _time
+    t_start = _time.time()
     violations, notes = [], 0
-    n_trees = 200 if tier == "quick" else 3000
+    n_trees = 115 if tier == "quick" else 2000
+    n_forced = 10 if tier == "quick" else 100
     if os.environ.get("C15_TREES"): n_trees = int(os.environ["C15_TREES"])      # mutation self-tests only
     max_lin = 120
     repl_cases, lin_cases, der_cases = [], [], []
     lin_meta, der_meta = [], []
     start_cases, start_meta = [], []
-    hist_size, hist_lin, feats = {}, {}, {}
+    hist_size, hist_lin, feats, shape_hist = {}, {}, {}, {}
     shapes = set()
     n_exh = n_samp = reused = 0
+    addr_reuse_trees = addr_reuse_objects = plain_runs = 0
     samples = []
     made = 0
     attempts = 0
     while made < n_trees and attempts < 20 * n_trees:
         attempts += 1
-        spec = gen.random_spec(rng, recursive=rng.random() < 0.75, dup_ext=False, start_arity0=rng.random() < 0.5,
-                               p_feature=0.3, allow_inf=False, max_edges=5)
+        forced = made < n_forced
+        if forced:
+            spec = forced_spec(rng)
+        else:
+            spec = gen.random_spec(rng, recursive=rng.random() < 0.75, dup_ext=False, start_arity0=rng.random() < 0.4,
+                                   p_feature=0.35, allow_inf=False, max_edges=5)
+            if rng.random() < 0.6: spec = permute_nodes(rng, spec)
+            if rng.random() < 0.25: spec = add_isolated(rng, spec)
+            if rng.random() < 0.35: spec = repeat_attachments(rng, spec)
         spec["weights"] = int_weights(rng, spec)
         ids = rng.choice(["explicit", "implicit", "mixed"])
         try:
@@ -418,9 +718,10 @@ def run(tier, seed):
         except Exception as ex:
             violations.append(Violation("building a generated FGG raised %r" % (ex,), case=gen.spec_jsonable(spec), corr="harness", failing_input_found=False))
             continue
-        target = rng.choice([1, 2, 3, 4, 5, 6, 7, 7, 7])
-        t = gen_tree(rng, spec, b, target)
+        target = rng.choice([1, 2, 3, 4, 5, 6, 7, 7, 7]) if not forced else rng.choice([3, 4, 5, 6, 7])
+        t = gen_tree(rng, spec, b, target, p_share=0.6 if forced else rng.choice([0.0, 0.3, 0.6]))
         if t is None: continue
+        if forced and t.size() < 3: continue
         if made >= n_trees // 4 and t.size() < 3 and rng.random() < 0.8: continue   # enough tiny trees
         if made >= n_trees // 3 and n_linearisations(t) == 1 and rng.random() < 0.6: continue   # enough chains
         made += 1
@@ -429,6 +730,9 @@ def run(tier, seed):
         used = [s.ri for _, s in t.paths()]
         if len(set(used)) < len(used): reused += 1
         for f in spec["features"]: feats[f] = feats.get(f, 0) + 1
+        tf = tree_features(spec, t)
+        for f in tf: shape_hist[f] = shape_hist.get(f, 0) + 1
+        shape_hist["ids:" + ids] = shape_hist.get("ids:" + ids, 0) + 1
         shapes.add((repr(gen.spec_jsonable(spec)["rules"]), tree_shape(t)))
         nl = n_linearisations(t)
         if nl <= max_lin:
@@ -444,7 +748,7 @@ def run(tier, seed):
             n_samp += 1
         bucket = "1" if len(lins) == 1 else "2-10" if len(lins) <= 10 else "11-119" if len(lins) < 120 else "120"
         hist_lin[bucket] = hist_lin.get(bucket, 0) + 1
-        meta = dict(spec=gen.spec_jsonable(spec), ids=ids, tree=tree_jsonable(t))
+        meta = dict(spec=gen.spec_jsonable(spec), ids=ids, tree=tree_jsonable(t), shapes=sorted(tf))
         for l in lins:
             ctx = Ctx()
             wt = wire_tree(ctx, t)           # number the rules' ids first
@@ -455,7 +759,7 @@ def run(tier, seed):
             except Exception as ex:
                 for c, m in rc: repl_cases.append((c, dict(meta, step=m, order=[list(map(str, p)) for p in l])))
                 violations.append(Violation("replacement sequence raised %r" % (ex,), case=dict(meta, order=[list(map(str, p)) for p in l]),
-                                            corr="corr:run", call="fggs.replace_edge along a linearisation"))
+                                            corr="corr:run", call="fggs.replace_edge along a linearisation", failing_input_found=False))
                 continue
             lin_cases.append((wt, 0, [[ctx.id(x) for x in p] for p in l], wire_named(ctx, g, nn, en)))
             lin_meta.append(dict(meta, order=[list(map(str, p)) for p in l]))
@@ -471,39 +775,87 @@ def run(tier, seed):
         # derive()
         ctx = Ctx()
         wt = wire_tree(ctx, t)
+        g = None
         try:
-            g, wasst, nn, en, prod = run_derive(ctx, b, spec, t)
+            g, asst, wasst, nn, en, prod = run_derive(ctx, b, spec, t)
             wg, wnn, wen = wire_named(ctx, g, nn, en)
             der_cases.append((wt, 0, (wg, wasst, wnn, wen), weight_table(ctx, b, spec), prod))
             der_meta.append(meta)
         except Exception as ex:
             violations.append(Violation("derive() raised %r on a well-formed derivation" % (ex,), case=meta, corr="corr:derive",
                                         call="FGGDerivation.derive()"))
+            g = None
+        # derive() again with nothing kept alive: addresses (= implicit ids) of dropped objects may be reused.
+        # derive() is deterministic, so the nodes/edges of the second result are named by POSITION; the names
+        # (paths of rule-edge ids + rule-node ids) are numbered identically in every Ctx because wire_tree is
+        # the first thing numbered and the rule objects stay alive.
+        if g is not None and n >= 2:
+            try:
+                names_n = [nn.get(x, UNNAMED) for x in g.nodes()]
+                names_e = [en.get(x, UNNAMED) for x in g.edges()]
+                del g, asst, nn, en, wg, wnn, wen, wasst
+                ctx = None
+                g2, asst2, n_reused = run_derive_plain(b, spec, t)
+                plain_runs += 1
+                if n_reused: addr_reuse_trees += 1; addr_reuse_objects += n_reused
+                ctx2 = Ctx()
+                wt2 = wire_tree(ctx2, t)
+                nn2 = {x: (names_n[i] if i < len(names_n) else UNNAMED) for i, x in enumerate(g2.nodes())}
+                en2 = {x: (names_e[i] if i < len(names_e) else UNNAMED) for i, x in enumerate(g2.edges())}
+                try: prod2 = weight_product(g2, asst2)
+                except KeyError: prod2 = 0
+                wasst2 = [(ctx2.node(x), int(str(v).split("_")[1])) for x, v in asst2.items()]
+                wg2, wnn2, wen2 = wire_named(ctx2, g2, nn2, en2)
+                der_cases.append((wt2, 0, (wg2, wasst2, wnn2, wen2), weight_table(ctx2, b, spec), prod2))
+                der_meta.append(dict(meta, nothing_kept_alive=True))
+            except Exception as ex:
+                violations.append(Violation("derive() (nothing kept alive) raised %r on a well-formed derivation" % (ex,), case=meta,
+                                            corr="corr:derive", call="FGGDerivation.derive()"))
         if len(samples) < 3 and n >= 3:
             samples.append(dict(meta, n_linearisations=nl, first_order=[list(map(str, p)) for p in lins[-1]]))
+    t_trees = _time.time()
     # malformed / single-call stream
-    mal = malformed_cases(rng, 160 if tier == "quick" else 2400)
+    mal = malformed_cases(rng, 150 if tier == "quick" else 2000)
     mal_hist = {}
     mal_obs = {}
-    for kind, ctx, host, edge, repl, sj in mal:
+    look_cases = look_hits = 0
+    for kind, ctx, host, edge, repl, sj, pre in mal:
         try:
-            (nm, em, status), case = judged_replace(ctx, host, edge, repl)
+            (nm, em, status), case = judged_replace(ctx, host, edge, repl, pre=pre)
         except Exception as ex:
             violations.append(Violation("harness could not run malformed case %s: %r" % (kind, ex), case=sj, corr="harness", failing_input_found=False))
             continue
+        if kind == "lookalike_ids":
+            look_cases += 1
+            if lookalike_hit(host): look_hits += 1
         repl_cases.append((case, dict(kind=kind, spec=sj)))
         mal_hist[kind] = mal_hist.get(kind, 0) + 1
-        key = kind + ":" + {0: "returned", 1: "ValueError", 2: "KeyError", 3: "other"}[status]
+        key = kind + ":" + STATUS_NAME[status]
         mal_obs[key] = mal_obs.get(key, 0) + 1
+    # replace_edge(g, e, g)
+    al = alias_cases(rng, 50 if tier == "quick" else 400)
+    alias_wire, alias_meta, alias_obs = [], [], {}
+    for shape, ctx, host, edge, desc in al:
+        try:
+            status, case = judged_alias(ctx, host, edge)
+        except Exception as ex:
+            violations.append(Violation("harness could not run aliasing case %s: %r" % (shape, ex), case=desc, corr="harness", failing_input_found=False))
+            continue
+        alias_wire.append(case); alias_meta.append(dict(kind="alias:" + shape, spec=desc))
+        key = shape + ":" + STATUS_NAME[status]
+        alias_obs[key] = alias_obs.get(key, 0) + 1
 
-    rcodes, k1 = run_model(REPL, [c for c, _ in repl_cases], seed=seed, tag="c15r", coq_sample=10)
-    lcodes, k2 = run_model(LIN, lin_cases, seed=seed, tag="c15l", coq_sample=6)
-    dcodes, k3 = run_model(DER, der_cases, seed=seed, tag="c15d", coq_sample=6)
+    t_calls = _time.time()
+    rcodes, k1 = run_model(REPL, [c for c, _ in repl_cases], seed=seed, tag="c15r", coq_sample=8)
+    lcodes, k2 = run_model(LIN, lin_cases, seed=seed, tag="c15l", coq_sample=5)
+    dcodes, k3 = run_model(DER, der_cases, seed=seed, tag="c15d", coq_sample=5)
     scodes, k4 = run_model(START, start_cases, seed=seed, tag="c15s", coq_sample=3)
+    acodes, k5 = run_model(ALIAS, alias_wire, seed=seed, tag="c15a", coq_sample=3)
+    t_model = _time.time()
     exact = [0, 0]
     for c, m, code in zip(start_cases, start_meta, scodes):
         if code == 0: continue
-        violations.append(Violation("start_graph: " + ("not a single start-labelled edge on fresh nodes (oracle start_ok rejects)" if code == 1 else "differs from start_graph_model"),
+        violations.append(Violation("start_graph: " + ("not a single start-labelled edge on fresh nodes with exact label tables (oracle start_ok rejects; C15_start_ok_exact)" if code == 1 else "differs from start_graph_model"),
                                     case=m, observed=c[2], oracle="start_ok" if code == 1 else None, failing_input_found=(code == 1),
                                     corr="C15_start_graph / corr:start_graph", call="fggs.start_graph(hrg)"))
     for (c, m), code in zip(repl_cases, rcodes):
@@ -511,8 +863,8 @@ def run(tier, seed):
         if code == 0: exact[0] += 1; continue
         if code == 20: notes += 1; continue
         violations.append(Violation(REPL_MSG.get(code, "code %d" % code), case=dict(m, wire=c[:4]), observed=c[4],
-                                    oracle="replace_ok" if code in (1, 2) else None, failing_input_found=code in (1, 2),
-                                    corr="C15_replace_spec / C15_replace_ok_sound / corr:replace_edge", call="fggs.replace_edge(graph, edge, replacement)"))
+                                    oracle="replace_ok" if code in (1, 2, 3) else None, failing_input_found=code in (1, 2, 3),
+                                    corr="C15_replace_spec / C15_replace_ok_exact / corr:replace_edge", call="fggs.replace_edge(graph, edge, replacement)"))
     for c, m, code in zip(lin_cases, lin_meta, lcodes):
         if code == 0: continue
         violations.append(Violation(LIN_MSG.get(code, "code %d" % code), case=m, observed=c[3], oracle="same_upto_naming" if code == 1 else None,
@@ -521,27 +873,49 @@ def run(tier, seed):
         exact[1] += 1
         if code == 0: exact[0] += 1; continue
         if code == 20: notes += 1; continue
-        violations.append(Violation(DER_MSG.get(code, "code %d" % code), case=m, observed=c[2], oracle={1: "same_upto_naming", 2: "total assignment", 3: "weight product", 12: "derived assignment"}.get(code),
-                                    failing_input_found=code in (1, 2, 3, 12), corr="C15_derive / C15_derive_assignment / corr:derive", call="FGGDerivation.derive()"))
+        violations.append(Violation(DER_MSG.get(code, "code %d" % code), case=m, observed=c[2],
+                                    oracle={1: "same_upto_naming", 2: "total assignment", 5: "assignment only on nodes", 3: "weight product", 12: "derived assignment"}.get(code),
+                                    failing_input_found=code in (1, 2, 3, 5, 12), corr="C15_derive / C15_derive_assignment_exact / corr:derive", call="FGGDerivation.derive()"))
+    alias_codes = {}
+    for c, m, code in zip(alias_wire, alias_meta, acodes):
+        alias_codes[code] = alias_codes.get(code, 0) + 1
+        if code == 0: continue
+        violations.append(Violation(ALIAS_MSG.get(code, "code %d" % code), case=dict(m, wire=c[:3]), observed=c[3],
+                                    oracle="replace_ok" if code in (1, 2, 4) else None, failing_input_found=code in (1, 2, 4),
+                                    corr="C15_replace_alias_never_spec / C15_replace_alias_guarded / corr:replace_edge(g, e, g)",
+                                    call="fggs.replace_edge(g, e, g)", finding_key=ALIAS_KEY if code == 1 else None))
     if notes: print("NOTE C15: %d result(s) equal to the model only up to dict order" % notes)
-    cov = dict(evaluations=len(repl_cases) + len(lin_cases) + len(der_cases) + len(start_cases),
+    shape_hist.update(trees=made, forced_grammar_trees=min(made, n_forced), rule_used_at_several_places=reused,
+                      derive_runs_with_nothing_kept_alive=plain_runs, derive_runs_where_a_dead_objects_address_was_reused=addr_reuse_trees,
+                      nodes_or_edges_of_final_graphs_with_a_reused_address=addr_reuse_objects,
+                      single_calls_with_address_like_explicit_ids=look_cases, of_which_an_explicit_id_spells_a_fresh_id_of_the_result=look_hits)
+    print("C15 shapes: " + ", ".join("%s=%s" % kv for kv in sorted(shape_hist.items())))
+    cov = dict(evaluations=len(repl_cases) + len(lin_cases) + len(der_cases) + len(start_cases) + len(alias_wire),
                distinct_nontrivial=len({s for s in shapes if len(s[1][1]) >= 1}),
-               rule="random HRGs (gen.random_spec, mostly recursive so rules are reused; explicit/implicit/mixed ids) and random derivation trees with 1..7 rule instances, "
-                    "consistent random assignments, shuffled children-dict order, occasionally an unexpanded nonterminal edge; for each tree all linearisations of the replacement "
+               rule="a fixed grammar with every forced shape (first trees) then random HRGs (gen.random_spec, mostly recursive so rules are reused; explicit/implicit/mixed ids; "
+                    "node insertion order permuted against .ext, extra isolated internal nodes, edges attached twice to a node) and random derivation trees with 1..7 rule instances "
+                    "in which sub-derivation OBJECTS are shared between nonterminal edges, consistent random assignments (one value per glued class), shuffled children-dict order, "
+                    "occasionally an unexpanded nonterminal edge; for each tree all linearisations of the replacement "
                     "steps when <= 120, else the depth-first order + random ones up to 120; every replace_edge call is judged by replace_ok, every final graph by same_upto_naming "
-                    "against derived_graph; derive() likewise plus assignment and integer weight product. distinct_nontrivial = distinct (grammar rules, tree shape) pairs with >= 2 rule instances. "
-                    "Malformed stream: single calls with wrong type, absent edge, both, repeated external node, label-name clash, attachment node not in nodes(), edge with a stolen id, valid calls on hosts with external nodes.",
+                    "against derived_graph; derive() likewise plus assignment (total, nothing else, values) and integer weight product, once with and once without keeping objects alive. "
+                    "distinct_nontrivial = distinct (grammar rules, tree shape) pairs with >= 2 rule instances. "
+                    "Single-call stream: wrong type, absent edge, both, repeated external node, label-name clash, attachment node not in nodes(), edge with a stolen id, valid calls on hosts "
+                    "with external nodes, hosts whose explicit ids are the decimal strings of just-freed addresses. Aliasing stream: replace_edge(g, e, g).",
                samples=samples, trees=made, trees_with_reused_rule=reused, trees_all_linearisations=n_exh, trees_sampled_linearisations=n_samp,
                replace_calls=len(repl_cases), linearisations=len(lin_cases), derive_calls=len(der_cases),
                tree_size_histogram=hist_size, linearisations_per_tree_histogram=hist_lin, grammar_features=feats,
+               shape_distribution=shape_hist,
                malformed_histogram=mal_hist, malformed_observed=mal_obs, exact_agreement="%d/%d" % tuple(exact),
-               kernel_reevaluated=k1 + k2 + k3 + k4, start_graph_calls=len(start_cases),
+               alias_calls=len(alias_wire), alias_observed=alias_obs, alias_verdicts={str(k): v for k, v in alias_codes.items()},
+               kernel_reevaluated=k1 + k2 + k3 + k4 + k5, start_graph_calls=len(start_cases),
+               phase_seconds=dict(trees_with_implementation=round(t_trees - t_start, 1), single_and_aliased_calls=round(t_calls - t_trees, 1),
+                                  model_and_oracles=round(t_model - t_calls, 1)),
                open_items=OPEN_ITEMS)
     return cov, violations
 
 OPEN_ITEMS = [
-    "completeness of the oracles (replace_spec -> replace_ok = true, iso_via -> same_upto_naming = true) is not proved; only soundness is",
-    "the node-label table of Graph and replace_edge(g, e, g) with host = replacement are outside the model",
+    "CPython's dict-iterator protocol (RuntimeError when the dict changed size, tested on every next()) is an assumption of replace_edge_alias_model, observed on every run but not proved",
+    "known finding c15_replacement_is_host: replace_edge(g, e, g) is not a replacement (C15_replace_alias_never_spec); not repaired in /repo",
 ]
 
 def replay(path):
@@ -564,7 +938,7 @@ def replay(path):
 
 MANIFEST = dict(
     level="proof",
-    text="Coq theorems about a Gallina model that follows fggs.replace_edge / start_graph / FGGDerivation.derive statement by statement: replacement specification and well-formedness preservation (C15_replace_spec), soundness of the executable oracles, confluence over every linearisation by an invariant (C15_confluence), derive() = the derived graph with a total assignment and the weight product in any commutative semiring (C15_derive). The model is tied to /repo by running every linearisation (<= 120 per tree) with the implementation and judging each call and each final graph with the extracted verified oracles.",
-    note="Trusted: Coq kernel + vm_compute, extraction cross-checked against vm_compute, the Python harness that numbers ids/labels and names nodes through the maps replace_edge returns.",
-    technique="Coq proof (model + theorems) + model/implementation correspondence with verified-spec oracles",
+    text="Coq theorems about a Gallina model that follows fggs.replace_edge / start_graph / FGGDerivation.derive statement by statement (both label tables included): replacement specification and well-formedness preservation (C15_replace_spec), the executable oracles are EXACT deciders of the specifications (C15_replace_ok_exact, C15_same_upto_naming_exact, C15_start_ok_exact), confluence over every linearisation by an invariant (C15_confluence), derive() = the derived graph with an assignment defined exactly on its nodes that is the denotational one, a function of the node name (C15_derive_assignment_exact, C15_derived_asst_nodup), and the weight product in any commutative semiring (C15_derive); node-label table tight along every run (C15_run_node_labels); the aliased call replace_edge(g, e, g) never meets the specification (C15_replace_alias_never_spec, known finding). The model is tied to /repo by running every linearisation (<= 120 per tree) with the implementation and judging each call and each final graph with the extracted verified oracles.",
+    note="Trusted: Coq kernel + vm_compute, extraction cross-checked against vm_compute, the Python harness that numbers ids/labels and names nodes through the maps replace_edge returns; CPython's dict-iterator protocol for the aliasing model.",
+    technique="Coq proof (model + theorems) + model/implementation correspondence with verified-spec oracles (sound and complete)",
     design_ref="DESIGN.md section 6, C15")
